@@ -1,30 +1,41 @@
 (* C02 - Supervisor: shutdown always completes (promptly or at timeout), never crashes.
-   Statements only.  `can_progress c s` = some step is enabled that is neither a timer nor a free
-   choice of the environment: an internal step, a step the implementation performs by itself, or
-   the return of a Run/Stop/Reload/IsRunning call that a contract-abiding runnable owes. *)
-From Coq Require Import List Bool Arith.
+   Statements only.  Progress is stated PER THREAD (SupProgress.v):
+   `body_can_progress c s`   = a step is enabled that is the shutdown body's own next step or a step of a
+                               goroutine the body is waiting for in its present position (inside Stop(i) of a
+                               lifecycle-style runnable: the goroutine of runnable i; inside wg.Wait(): a member
+                               of the WaitGroup) - never a timer, never a step of an unrelated thread;
+   `main_can_progress c s`   = a step of Run()'s own goroutine is enabled (the return of an IsRunning() call
+                               only while Run() is inside one);
+   `caller_can_progress c s k` = the Shutdown() caller k can enter / return.
+   The initial state has no Run() goroutine: Run() is called by the environment (LRunEnter, LRunEntered),
+   possibly AFTER Shutdown(). *)
+From Coq Require Import List Bool Arith Lia.
 From GS Require Import LTS Supervisor SupAccept SupProps SupInv SupOnce SupCensus SupProgress SupMeasure.
 Import ListNotations.
 
-(* Provided the runnables behave like the bundled ones (Run returns after Stop or cancellation;
-   Stop blocks at most until its Run has been invoked and has returned - both Stop styles are
-   covered), then in EVERY reachable state in which the shutdown body has started and is not done,
-   progress is possible without the shutdown timeout: no deadlock and no time-lock, whatever the
-   trigger mix, the number of runnables, and whether shutdown began during start-up. *)
+(* Provided the runnables behave like the bundled ones (`good c`: no Run stays inside forever once it
+   was told to stop or its context ended - a Run that returns by itself, with or without an error, is
+   covered; Stop blocks at most until its Run has been invoked and has returned - both Stop styles are
+   covered; a Reload() call in progress returns), and EXCLUDING one shape (`sdfirst_ok c s`: if Shutdown()
+   closed the launch gate before Run() was entered then every Stop is non-blocking - see
+   C02_shutdown_before_run_refuted), then in EVERY reachable state in which the shutdown body has started
+   and is not done, the body or what it is waiting for can move without the shutdown timeout: no deadlock
+   and no time-lock, whatever the trigger mix, the number of runnables, and whether shutdown began during
+   start-up. *)
 Theorem C02_no_deadlock_no_timelock : forall c s,
-  reachable_sup c s -> good c ->
-  match sd s with SdNot | SdDone => True | _ => can_progress c s end.
+  reachable_sup c s -> good c -> sdfirst_ok c s ->
+  match sd s with SdNot | SdDone => True | _ => body_can_progress c s end.
 Proof. exact sup_c02_body_progress. Qed.
 
-(* ... and once the body is done (without the timeout having fired), Run() can always take its next
-   step until it has returned, and every Shutdown() caller returns. *)
+(* ... and once the body is done (whether or not the timeout has fired), Run() - if it was called at all -
+   can always take its next step until it has returned, and every Shutdown() caller returns. *)
 Theorem C02_run_returns : forall c s,
-  0 < nrun c -> reachable_sup c s -> sd s = SdDone -> sd_timed_out s = false ->
-  (exists r, main s = MReturned r) \/ can_progress c s.
+  0 < nrun c -> reachable_sup c s -> sd s = SdDone ->
+  main s = MNew \/ (exists r, main s = MReturned r) \/ main_can_progress c s.
 Proof. exact sup_c02_main_progress. Qed.
 
 Theorem C02_shutdown_callers_return : forall c s k cs,
-  sd s = SdDone -> find_caller k (callers s) = Some (OpShutdown, cs) -> can_progress c s.
+  sd s = SdDone -> find_caller k (callers s) = Some (OpShutdown, cs) -> caller_can_progress c s k.
 Proof. exact sup_c02_caller_returns. Qed.
 
 (* After such a clean completion every runnable goroutine has finished (the WaitGroup is zero). *)
@@ -57,13 +68,100 @@ Definition c02_cfg : config :=
                    stop_style := StopUntilRunDone; run_exit := ExitOnSignal; held_sub := false |} ];
      startup_may_fire := false; shutdown_may_fire := false |}.
 Example C02_ex_good : good c02_cfg.
-Proof. intros i Hi. destruct i; [reflexivity|cbn in Hi; inversion Hi; inversion H0]. Qed.
+Proof. intros i Hi. destruct i; [discriminate|cbn in Hi; inversion Hi; inversion H0]. Qed.
 Example C02_ex_in_stop :
   exists s, run (step c02_cfg) (init c02_cfg)
-              [LLaunch 0; LRunCall 0; LCall 1 OpShutdown; LCallerGo 1; LStopCall 0] = Some s
-            /\ sd s = SdIn 0 /\ step c02_cfg s (LStopRet 0) = None
-            /\ step c02_cfg s (LRunRet 0 None) <> None.
-Proof. eexists. split; [vm_compute; reflexivity|]. split; [reflexivity|]. split; vm_compute; [reflexivity|discriminate]. Qed.
+              [LRunEnter; LRunEntered; LLaunch 0; LRunCall 0; LCall 1 OpShutdown; LCallerGo 1; LStopCall 0] = Some s
+            /\ sd s = SdIn 0 /\ sdfirst_ok c02_cfg s /\ step c02_cfg s (LStopRet 0) = None
+            /\ step c02_cfg s (LRunRet 0 None) <> None /\ body_step s (LRunRet 0 None) = true.
+Proof.
+  eexists. split; [vm_compute; reflexivity|]. split; [reflexivity|]. split; [intros X; discriminate X|].
+  split; [vm_compute; reflexivity|]. split; [vm_compute; discriminate|reflexivity].
+Qed.
+
+(* ---- Shutdown() BEFORE Run(): the excluded shape is a real behaviour (finding shutdown-before-run-blocks-forever) ---- *)
+
+(* REFUTED without `sdfirst_ok`.  One lifecycle-style runnable (Stop blocks until its Run has been invoked and
+   has returned, exactly like the bundled runnables; Run returns when signalled: `good`).  Shutdown() is called
+   before Run(): it calls Stop() on the registered runnable, whose Run was not and will never be invoked; Stop()
+   blocks forever; the context is never cancelled and the shutdown timer (armed only after the Stop loop) never
+   exists.  Run() is then called: the launch gate is closed, it starts nothing and blocks in reap().
+   The state reached satisfies every hypothesis of C02_stuck_returned except sdfirst_ok, no step of the
+   implementation is enabled (not even a timer: shutdown_may_fire = true here), and its conclusion fails: the
+   shutdown body is not done, Run() has not returned, the Shutdown() caller is still inside. *)
+Definition c02_first_cfg : config :=
+  {| specs := specs c02_cfg; startup_may_fire := true; shutdown_may_fire := true |}.
+Definition c02_first_sched : list label :=
+  [LCall 1 OpShutdown; LCallerGo 1; LStopCall 0; LRunEnter; LRunEntered; LLaunch 0].
+Definition c02_first_hung : state :=
+  match run (step c02_first_cfg) (init c02_first_cfg) c02_first_sched with Some s => s | None => init c02_first_cfg end.
+Theorem C02_shutdown_before_run_refuted :
+  good c02_first_cfg /\ 0 < nrun c02_first_cfg /\
+  run (step c02_first_cfg) (init c02_first_cfg) c02_first_sched = Some c02_first_hung /\
+  sd c02_first_hung <> SdNot /\ system_stuck c02_first_cfg c02_first_hung /\
+  sd_all (aux c02_first_hung) = true /\ stop_style (spec c02_first_cfg 0) = StopUntilRunDone /\
+  sd c02_first_hung = SdIn 0 /\ rn_at c02_first_hung 0 = RnNot /\ main c02_first_hung = MReap /\
+  find_caller 1 (callers c02_first_hung) = Some (OpShutdown, CPending) /\
+  own_cancel c02_first_hung = false.
+Proof.
+  split; [intros i Hi; destruct i; [discriminate|cbn in Hi; lia]|]. split; [cbn; lia|].
+  split; [vm_compute; reflexivity|]. split; [vm_compute; discriminate|].
+  split; [concrete_stuck|]. repeat split; vm_compute; reflexivity.
+Qed.
+
+(* What holds: when every Stop is non-blocking the shape is harmless (sdfirst_ok holds in every state), so
+   all the theorems of this file apply to Shutdown()-before-Run() as well ... *)
+Theorem C02_shutdown_before_run_nonblocking : forall c s,
+  (forall i, i < nrun c -> stop_style (spec c i) = StopNonBlocking) -> sdfirst_ok c s.
+Proof. intros c s H _. exact H. Qed.
+
+(* ... and so they do whenever Run() was entered before the launch gate was closed *)
+Theorem C02_run_first_ok : forall c s, sd_all (aux s) = false -> sdfirst_ok c s.
+Proof. intros c s H X. congruence. Qed.
+
+(* non-vacuity of all hypotheses at once on a Shutdown()-before-Run() execution (sd_all = true): two
+   runnables with non-blocking Stop; both are stopped although never run; Shutdown() returns; a later Run()
+   starts nothing and returns nil *)
+Definition c02_nb_cfg : config :=
+  {| specs := [dflt_spec; dflt_spec]; startup_may_fire := false; shutdown_may_fire := false |}.
+Definition c02_nb_pre : list label := [LCall 1 OpShutdown; LCallerGo 1].
+Definition c02_nb_rest : list label :=
+  [LStopCall 1; LStopRet 1; LStopCall 0; LStopRet 0; LSdCancel; LSdWgDone; LRet 1 OpShutdown].
+Definition c02_nb_later : list label := [LRunEnter; LRunEntered; LLaunch 0; LReapCtx; LMainShutdown; LMainReturn ResNil].
+Definition c02_nb_mid : state :=
+  match run (step c02_nb_cfg) (init c02_nb_cfg) c02_nb_pre with Some s => s | None => init c02_nb_cfg end.
+Definition c02_nb_done : state :=
+  match run (step c02_nb_cfg) c02_nb_mid c02_nb_rest with Some s => s | None => init c02_nb_cfg end.
+Definition c02_nb_final : state :=
+  match run (step c02_nb_cfg) c02_nb_done c02_nb_later with Some s => s | None => init c02_nb_cfg end.
+Example C02_ex_shutdown_before_run_all_hypotheses :
+  good c02_nb_cfg /\ 0 < nrun c02_nb_cfg /\
+  reachable_sup c02_nb_cfg c02_nb_mid /\ sd c02_nb_mid <> SdNot /\ sd_all (aux c02_nb_mid) = true /\
+  sdfirst_ok c02_nb_cfg c02_nb_mid /\
+  run (step c02_nb_cfg) c02_nb_mid c02_nb_rest = Some c02_nb_done /\ forallb is_system c02_nb_rest = true /\
+  reachable_sup c02_nb_cfg c02_nb_done /\ sdfirst_ok c02_nb_cfg c02_nb_done /\
+  system_stuck c02_nb_cfg c02_nb_done /\ sd c02_nb_done = SdDone /\ main c02_nb_done = MNew /\
+  callers c02_nb_done = [] /\
+  run (step c02_nb_cfg) c02_nb_done c02_nb_later = Some c02_nb_final /\
+  system_stuck c02_nb_cfg c02_nb_final /\ main c02_nb_final = MReturned ResNil /\ launched c02_nb_final = 0.
+Proof.
+  assert (NB : forall i, i < nrun c02_nb_cfg -> stop_style (spec c02_nb_cfg i) = StopNonBlocking)
+    by (intros i Hi; destruct i as [|[|i]]; [reflexivity|reflexivity|cbn in Hi; lia]).
+  split; [intros i Hi; destruct i as [|[|i]]; [discriminate|discriminate|cbn in Hi; lia]|].
+  split; [cbn; lia|]. split; [exists c02_nb_pre; vm_compute; reflexivity|]. split; [vm_compute; discriminate|].
+  split; [vm_compute; reflexivity|]. split; [now apply C02_shutdown_before_run_nonblocking|].
+  split; [vm_compute; reflexivity|]. split; [reflexivity|].
+  split; [exists (c02_nb_pre ++ c02_nb_rest); vm_compute; reflexivity|].
+  split; [now apply C02_shutdown_before_run_nonblocking|].
+  split; [concrete_stuck|]. split; [vm_compute; reflexivity|]. split; [vm_compute; reflexivity|].
+  split; [vm_compute; reflexivity|]. split; [vm_compute; reflexivity|].
+  split; [apply mu_zero_stuck; [vm_compute; discriminate|vm_compute; reflexivity]|].
+  split; vm_compute; reflexivity.
+Qed.
+
+Print Assumptions C02_shutdown_before_run_refuted.
+Print Assumptions C02_shutdown_before_run_nonblocking.
+Print Assumptions C02_run_first_ok.
 
 (* ---- termination: a measure, not only the absence of stuck states ---- *)
 
@@ -77,7 +175,7 @@ Theorem C02_measure_decreases : forall c s l s',
   sd s <> SdNot -> is_system l = true -> step c s l = Some s' -> mu c s' < mu c s.
 Proof. exact mu_system_step. Qed.
 
-(* ... and a step of the environment increases it by at most W c + 3 = 2 * nrun c + 6. *)
+(* ... and a step of the environment increases it by at most W c + 3 = 2 * nrun c + 7. *)
 Theorem C02_measure_env : forall c s l s',
   is_system l = false -> step c s l = Some s' -> mu c s' <= mu c s + W c + 3.
 Proof. exact mu_env_step. Qed.
@@ -91,19 +189,20 @@ Theorem C02_bounded : forall c ls s s',
 Proof. exact sup_c02_bounded. Qed.
 
 (* Every maximal execution of the implementation after shutdown start (from a reachable state, with
-   runnables that exit when signalled) has at most mu steps, and where it can go no further the
-   shutdown body is done and Run() HAS RETURNED. *)
+   runnables satisfying `good c`: run_exit <> ExitNever) has at most mu steps, and where it can go no further the
+   shutdown body is done and Run() HAS RETURNED (main = MNew: Run() was never called - it then has nothing to
+   return from; once called, MEntering always has the enabled step LRunEntered). *)
 Theorem C02_maximal_execution_returns : forall c s ls s',
-  good c -> 0 < nrun c -> reachable_sup c s -> sd s <> SdNot ->
+  good c -> 0 < nrun c -> reachable_sup c s -> sd s <> SdNot -> sdfirst_ok c s ->
   run (step c) s ls = Some s' -> forallb is_system ls = true ->
   length ls <= mu c s /\
-  (system_stuck c s' -> sd s' = SdDone /\ exists r, main s' = MReturned r).
+  (system_stuck c s' -> sd s' = SdDone /\ (main s' = MNew \/ exists r, main s' = MReturned r)).
 Proof. exact sup_c02_maximal. Qed.
 
 (* ... and no Shutdown() caller is left inside the library. *)
 Theorem C02_stuck_returned : forall c s,
-  good c -> 0 < nrun c -> reachable_sup c s -> sd s <> SdNot -> system_stuck c s ->
-  sd s = SdDone /\ (exists r, main s = MReturned r) /\
+  good c -> 0 < nrun c -> reachable_sup c s -> sd s <> SdNot -> sdfirst_ok c s -> system_stuck c s ->
+  sd s = SdDone /\ (main s = MNew \/ exists r, main s = MReturned r) /\
   (forall k cs, find_caller k (callers s) <> Some (OpShutdown, cs)).
 Proof. exact sup_c02_stuck_returned. Qed.
 
@@ -113,9 +212,169 @@ Print Assumptions C02_bounded.
 Print Assumptions C02_maximal_execution_returns.
 Print Assumptions C02_stuck_returned.
 
+(* The child contract `good c` is "no Run stays inside forever" (run_exit <> ExitNever): runnables whose
+   Run returns BY ITSELF, with a real error, are covered - i.e. the triggers "a runnable returning an
+   error" and "a start-up failure".  Two witnesses, each satisfying ALL hypotheses of
+   C02_no_deadlock_no_timelock, C02_maximal_execution_returns and C02_stuck_returned at once. *)
+
+(* (a) a lifecycle-style runnable whose Run fails by itself while the supervisor is in reap() *)
+Definition c02_free_spec (st : bool) (ss : sstyle) : rspec :=
+  {| stateable := st; reloadable := false; rsender := false; ssender := false;
+     stop_style := ss; run_exit := ExitFree; held_sub := false |}.
+Definition c02_free_cfg : config :=
+  {| specs := [c02_free_spec false StopUntilRunDone]; startup_may_fire := false; shutdown_may_fire := false |}.
+Definition c02_free_pre : list label :=
+  [LRunEnter; LRunEntered; LLaunch 0; LRunCall 0; LRunRet 0 (Some (7, false)); LErrSend 0; LReapErr; LMainShutdown].
+Definition c02_free_rest : list label :=
+  [LStopCall 0; LStopRet 0; LSdCancel; LSdWgDone; LMainReturn (ResErr 7)].
+Definition c02_free_mid : state :=
+  match run (step c02_free_cfg) (init c02_free_cfg) c02_free_pre with Some s => s | None => init c02_free_cfg end.
+Definition c02_free_final : state :=
+  match run (step c02_free_cfg) c02_free_mid c02_free_rest with Some s => s | None => init c02_free_cfg end.
+Example C02_ex_free_good : good c02_free_cfg /\ 0 < nrun c02_free_cfg.
+Proof. split; [|cbn; auto]. intros i Hi. destruct i; [discriminate|cbn in Hi; inversion Hi; inversion H0]. Qed.
+Example C02_ex_error_exit_all_hypotheses :
+  good c02_free_cfg /\ 0 < nrun c02_free_cfg /\
+  reachable_sup c02_free_cfg c02_free_mid /\ sd c02_free_mid <> SdNot /\ sdfirst_ok c02_free_cfg c02_free_mid /\
+  run (step c02_free_cfg) c02_free_mid c02_free_rest = Some c02_free_final /\
+  forallb is_system c02_free_rest = true /\
+  reachable_sup c02_free_cfg c02_free_final /\ sd c02_free_final <> SdNot /\
+  system_stuck c02_free_cfg c02_free_final /\
+  main c02_free_final = MReturned (ResErr 7) /\ callers c02_free_final = [].
+Proof.
+  split; [exact (proj1 C02_ex_free_good)|]. split; [exact (proj2 C02_ex_free_good)|].
+  split; [exists c02_free_pre; vm_compute; reflexivity|]. split; [vm_compute; discriminate|].
+  split; [apply C02_run_first_ok; vm_compute; reflexivity|].
+  split; [vm_compute; reflexivity|]. split; [reflexivity|].
+  split; [exists (c02_free_pre ++ c02_free_rest); vm_compute; reflexivity|].
+  split; [vm_compute; discriminate|].
+  split; [apply mu_zero_stuck; [vm_compute; discriminate|vm_compute; reflexivity]|].
+  split; vm_compute; reflexivity.
+Qed.
+
+(* (b) a start-up failure: Stateable runnable 0 fails while Run() waits at its readiness gate; runnable 1
+   (lifecycle-style Stop) is never started, hence never stopped; Run() returns the error *)
+Definition c02_sf_cfg : config :=
+  {| specs := [c02_free_spec true StopUntilRunDone; c02_free_spec false StopUntilRunDone];
+     startup_may_fire := false; shutdown_may_fire := false |}.
+Definition c02_sf_pre : list label :=
+  [LRunEnter; LRunEntered; LLaunch 0; LRunStore 0; LRunCall 0; LPoll 0 false; LRunRet 0 (Some (9, false)); LErrSend 0; LGateErr 0; LMainShutdown].
+Definition c02_sf_rest : list label :=
+  [LStopCall 0; LStopRet 0; LSdCancel; LStmExit; LSdWgDone; LMainReturn (ResErr 9)].
+Definition c02_sf_mid : state :=
+  match run (step c02_sf_cfg) (init c02_sf_cfg) c02_sf_pre with Some s => s | None => init c02_sf_cfg end.
+Definition c02_sf_final : state :=
+  match run (step c02_sf_cfg) c02_sf_mid c02_sf_rest with Some s => s | None => init c02_sf_cfg end.
+Example C02_ex_startup_failure_all_hypotheses :
+  good c02_sf_cfg /\ 0 < nrun c02_sf_cfg /\
+  reachable_sup c02_sf_cfg c02_sf_mid /\ sd c02_sf_mid = SdNext 1 /\ sdfirst_ok c02_sf_cfg c02_sf_mid /\
+  run (step c02_sf_cfg) c02_sf_mid c02_sf_rest = Some c02_sf_final /\
+  forallb is_system c02_sf_rest = true /\
+  reachable_sup c02_sf_cfg c02_sf_final /\ sd c02_sf_final <> SdNot /\
+  system_stuck c02_sf_cfg c02_sf_final /\
+  main c02_sf_final = MReturned (ResErr 9) /\ launched c02_sf_final = 1 /\
+  stop_evs (rev (hist c02_sf_final)) = canon_stops 1.
+Proof.
+  split; [intros i Hi; destruct i as [|[|i]]; [discriminate|discriminate|cbn in Hi; lia]|].
+  split; [cbn; auto|].
+  split; [exists c02_sf_pre; vm_compute; reflexivity|]. split; [vm_compute; reflexivity|].
+  split; [apply C02_run_first_ok; vm_compute; reflexivity|].
+  split; [vm_compute; reflexivity|]. split; [reflexivity|].
+  split; [exists (c02_sf_pre ++ c02_sf_rest); vm_compute; reflexivity|].
+  split; [vm_compute; discriminate|].
+  split; [apply mu_zero_stuck; [vm_compute; discriminate|vm_compute; reflexivity]|].
+  split; [vm_compute; reflexivity|]. split; vm_compute; reflexivity.
+Qed.
+
+(* ---- the timeout sentence: "If some runnable never returns, Run() and Shutdown() still return once the
+   configured shutdown timeout has elapsed" ---- *)
+
+(* PROVED for non-blocking Stops: with a shutdown timeout that can fire (shutdown_may_fire c = true) and every
+   Stop of style StopNonBlocking - whatever the runnables' Run does: returning late, returning errors, NEVER
+   returning (no `good` hypothesis, no sdfirst_ok) - every reachable state after shutdown start in which no step
+   of the implementation is enabled (the timer counts as a step of the implementation) has the shutdown body
+   done, Run() returned (or never called) and no Shutdown() caller inside ... *)
+Theorem C02_timeout_stuck_returned : forall c s,
+  shutdown_may_fire c = true -> (forall i, i < nrun c -> stop_style (spec c i) = StopNonBlocking) ->
+  0 < nrun c -> reachable_sup c s -> sd s <> SdNot -> system_stuck c s ->
+  sd s = SdDone /\ (main s = MNew \/ exists r, main s = MReturned r) /\
+  (forall k cs, find_caller k (callers s) <> Some (OpShutdown, cs)).
+Proof. exact sup_c02_timeout_stuck_returned. Qed.
+
+(* ... and every execution of implementation steps from there is finite (at most mu steps) and ends so. *)
+Theorem C02_timeout_maximal_execution_returns : forall c s ls s',
+  shutdown_may_fire c = true -> (forall i, i < nrun c -> stop_style (spec c i) = StopNonBlocking) ->
+  0 < nrun c -> reachable_sup c s -> sd s <> SdNot ->
+  run (step c) s ls = Some s' -> forallb is_system ls = true ->
+  length ls <= mu c s /\
+  (system_stuck c s' -> sd s' = SdDone /\ (main s' = MNew \/ exists r, main s' = MReturned r) /\
+                        (forall k cs, find_caller k (callers s') <> Some (OpShutdown, cs))).
+Proof. exact sup_c02_timeout_maximal. Qed.
+
+(* non-vacuity, all hypotheses at once: a runnable whose Run NEVER returns, non-blocking Stop; the wait is ended
+   by the timer; Run() and Shutdown() return; the runnable goroutine stays behind *)
+Definition c02_never_spec (ss : sstyle) : rspec :=
+  {| stateable := false; reloadable := false; rsender := false; ssender := false;
+     stop_style := ss; run_exit := ExitNever; held_sub := false |}.
+Definition c02_to_cfg : config :=
+  {| specs := [c02_never_spec StopNonBlocking]; startup_may_fire := false; shutdown_may_fire := true |}.
+Definition c02_to_pre : list label := [LRunEnter; LRunEntered; LLaunch 0; LRunCall 0; LCall 1 OpShutdown; LCallerGo 1].
+Definition c02_to_rest : list label :=
+  [LStopCall 0; LStopRet 0; LSdCancel; LSdTimeout; LReapCtx; LMainShutdown; LMainReturn ResNil; LRet 1 OpShutdown].
+Definition c02_to_mid : state :=
+  match run (step c02_to_cfg) (init c02_to_cfg) c02_to_pre with Some s => s | None => init c02_to_cfg end.
+Definition c02_to_final : state :=
+  match run (step c02_to_cfg) c02_to_mid c02_to_rest with Some s => s | None => init c02_to_cfg end.
+Example C02_ex_timeout_all_hypotheses :
+  shutdown_may_fire c02_to_cfg = true /\
+  (forall i, i < nrun c02_to_cfg -> stop_style (spec c02_to_cfg i) = StopNonBlocking) /\
+  ~ good c02_to_cfg /\ 0 < nrun c02_to_cfg /\
+  reachable_sup c02_to_cfg c02_to_mid /\ sd c02_to_mid <> SdNot /\
+  run (step c02_to_cfg) c02_to_mid c02_to_rest = Some c02_to_final /\ forallb is_system c02_to_rest = true /\
+  reachable_sup c02_to_cfg c02_to_final /\ sd c02_to_final <> SdNot /\ system_stuck c02_to_cfg c02_to_final /\
+  main c02_to_final = MReturned ResNil /\ callers c02_to_final = [] /\ sd_timed_out c02_to_final = true /\
+  rn_at c02_to_final 0 = RnRunning.
+Proof.
+  split; [reflexivity|]. split; [intros i Hi; destruct i; [reflexivity|cbn in Hi; lia]|].
+  split; [intros G; apply (G 0); [cbn; lia|reflexivity]|]. split; [cbn; lia|].
+  split; [exists c02_to_pre; vm_compute; reflexivity|]. split; [vm_compute; discriminate|].
+  split; [vm_compute; reflexivity|]. split; [reflexivity|].
+  split; [exists (c02_to_pre ++ c02_to_rest); vm_compute; reflexivity|]. split; [vm_compute; discriminate|].
+  split; [concrete_stuck|]. repeat split; vm_compute; reflexivity.
+Qed.
+
+(* REFUTED for a blocking Stop (finding never-returning-run-blocks-stop-forever): a runnable whose Run never
+   returns and whose Stop is of the lifecycle style (it blocks until its Run has been invoked and HAS RETURNED,
+   like every bundled runnable).  Shutdown blocks inside that Stop() forever; p.cancel() and the shutdown timer,
+   which exists only after the Stop loop, are never reached: although the timeout can fire
+   (shutdown_may_fire = true) no step of the implementation - no timer either - is enabled, the shutdown body is
+   not done, Run() has not returned and the Shutdown() caller is still inside. *)
+Definition c02_nr_cfg : config :=
+  {| specs := [c02_never_spec StopUntilRunDone]; startup_may_fire := false; shutdown_may_fire := true |}.
+Definition c02_nr_sched : list label :=
+  [LRunEnter; LRunEntered; LLaunch 0; LRunCall 0; LCall 1 OpShutdown; LCallerGo 1; LStopCall 0].
+Definition c02_nr_hung : state :=
+  match run (step c02_nr_cfg) (init c02_nr_cfg) c02_nr_sched with Some s => s | None => init c02_nr_cfg end.
+Theorem C02_timeout_refuted_blocking_stop :
+  shutdown_may_fire c02_nr_cfg = true /\ 0 < nrun c02_nr_cfg /\
+  run (step c02_nr_cfg) (init c02_nr_cfg) c02_nr_sched = Some c02_nr_hung /\
+  sd c02_nr_hung <> SdNot /\ sd_all (aux c02_nr_hung) = false /\ system_stuck c02_nr_cfg c02_nr_hung /\
+  stop_style (spec c02_nr_cfg 0) = StopUntilRunDone /\ run_exit (spec c02_nr_cfg 0) = ExitNever /\
+  sd c02_nr_hung = SdIn 0 /\ rn_at c02_nr_hung 0 = RnRunning /\ main c02_nr_hung = MReap /\
+  step c02_nr_cfg c02_nr_hung LSdTimeout = None /\
+  find_caller 1 (callers c02_nr_hung) = Some (OpShutdown, CPending).
+Proof.
+  split; [reflexivity|]. split; [cbn; lia|]. split; [vm_compute; reflexivity|]. split; [vm_compute; discriminate|].
+  split; [vm_compute; reflexivity|]. split; [concrete_stuck|]. repeat split; vm_compute; reflexivity.
+Qed.
+
+Print Assumptions C02_timeout_stuck_returned.
+Print Assumptions C02_timeout_maximal_execution_returns.
+Print Assumptions C02_timeout_refuted_blocking_stop.
+
 (* non-vacuity: a complete shutdown of c02_cfg; the measure goes from 13 to 0 in 9 implementation
    steps, and with measure 0 no implementation step is enabled *)
-Definition c02_pre : list label := [LLaunch 0; LRunCall 0; LCall 1 OpShutdown; LCallerGo 1].
+Definition c02_pre : list label := [LRunEnter; LRunEntered; LLaunch 0; LRunCall 0; LCall 1 OpShutdown; LCallerGo 1].
 Definition c02_rest : list label :=
   [LStopCall 0; LRunRet 0 None; LStopRet 0; LSdCancel; LSdWgDone; LReapCtx; LMainShutdown;
    LMainReturn ResNil; LRet 1 OpShutdown].
